@@ -439,6 +439,58 @@ def branch_goals(p, rng=None):
     return out
 
 
+
+def shape_deep(rng, param=None):
+    """supertrait / parameter-bound chains of depth 9..14 (one elaboration round per level), linear
+    with a side branch at a random level; declaration order shuffled.  Returns a program with
+    `p.deep_goals`: the goals concluding every level from the hypothesis on the top trait."""
+    n = rng.randint(9, 14)
+    param = (rng.random() < 0.4) if param is None else param
+    side_at = rng.randrange(2, n)
+    traits = []
+    for i in range(n + 1):
+        if param:
+            wcs = [impl_atom("L%d" % (i + 1), var(1), var(0))] if i < n else []       # Li<P0> where P0: L(i+1)<Self>
+            if i == side_at:
+                wcs.append(impl_atom("Side", var(1)))
+            traits.append(ETrait("L%d" % i, 1, wcs))
+        else:
+            wcs = [impl_atom("L%d" % (i + 1), var(0))] if i < n else []
+            if i == side_at:
+                wcs.append(impl_atom("Side", var(0)))
+            traits.append(ETrait("L%d" % i, 0, wcs))
+    traits += [ETrait("Side", 0, [impl_atom("Side2", var(0))]), ETrait("Side2")]
+    rng.shuffle(traits)
+    adts = _std_adts(rng)
+    impls = [pg.Impl(0, ("Side2", (adt("S0"),)))]
+    p = EProg(adts, traits, impls, "deep-param" if param else "deep")
+    goals = []
+    if param:
+        vs = (1, 2)
+        hs = ((("impl", "L0", (var(1), var(2))), ()),)
+        lvl = lambda k: ("impl", "L%d" % k, (var(1), var(2)) if k % 2 == 0 else (var(2), var(1)))
+        side_subj = var(2) if side_at % 2 == 0 else var(1)
+    else:
+        vs = (1,)
+        hs = ((("impl", "L0", (var(1),)), ()),)
+        lvl = lambda k: ("impl", "L%d" % k, (var(1),))
+        side_subj = var(1)
+    for k in range(n + 1):
+        goals.append(("forall", vs, ("if", hs, ("atom", lvl(k)))))
+    goals.append(("forall", vs, ("if", hs, ("and", (("atom", lvl(n)), ("atom", lvl(n - 1)))))))
+    goals.append(("forall", vs, ("if", hs, ("atom", ("impl", "Side2", (side_subj,))))))
+    goals.append(("forall", vs, ("if", hs, ("atom", ("fe",) + lvl(n)[1:]))))
+    if param:
+        goals.append(("forall", vs, ("if", hs, ("atom", ("impl", "L%d" % n, (var(1), var(1)))))))      # not implied
+    # hypothesis in the middle: only the levels below follow
+    mid = n // 2
+    hm = ((lvl(mid), ()),)
+    goals.append(("forall", vs, ("if", hm, ("atom", lvl(n)))))
+    goals.append(("forall", vs, ("if", hm, ("atom", lvl(mid - 1)))))
+    p.deep_goals = goals
+    return p
+
+
 SHAPES = [shape_branch, shape_selfref, shape_chain, shape_diamond, shape_cycle, shape_params, shape_structs, shape_random, shape_random]
 
 
